@@ -100,12 +100,21 @@ func (s *Sim) key(idx int) sdk.Address {
 	return AddrOf(KeyFor(s.cfg.KeySeed, idx))
 }
 
+// sendTo is the recipient of a send step: a key of the run or, with ToMod, a module account.
+func (s *Sim) sendTo(st *Step) sdk.Address {
+	if st.ToMod != "" {
+		a, _ := sdk.AddressFromHex(ModuleAddr(st.ToMod))
+		return a
+	}
+	return s.key(st.To)
+}
+
 // buildMsg constructs the message of a tx step.
 func (s *Sim) buildMsg(st *Step) (sdk.ProtoMsg, error) {
 	ks := s.cfg.KeySeed
 	switch st.Kind {
 	case "send":
-		return &nodesTypes.MsgSend{FromAddress: s.key(st.From), ToAddress: s.key(st.To), Amount: sdk.NewInt(st.Amount)}, nil
+		return &nodesTypes.MsgSend{FromAddress: s.key(st.From), ToAddress: s.sendTo(st), Amount: sdk.NewInt(st.Amount)}, nil
 	case "node_stake":
 		m := &nodesTypes.MsgStake{PublicKey: KeyFor(ks, st.From).PublicKey(), Chains: st.Chains, Value: sdk.NewInt(st.Amount),
 			ServiceUrl: fmt.Sprintf("https://n%d.sim:443", st.From)}
